@@ -1,5 +1,6 @@
 ---------------------------- MODULE MC_LazyCdclW ----------------------------
 EXTENDS LazyCdclW, TLC
+CancelTrue == TRUE
 RECURSIVE JoinInts(_)
 JoinInts(s) == IF s = <<>> THEN "" ELSE ToString(Head(s)) \o (IF Len(s) > 1 THEN "," ELSE "") \o JoinInts(Tail(s))
 SetToSeq(S) == LET RECURSIVE F(_) F(T) == IF T = {} THEN <<>> ELSE LET m == CHOOSE x \in T : \A y \in T : x <= y IN <<m>> \o F(T \ {m}) IN F(S)
